@@ -808,6 +808,15 @@ def b_list_index(I, slf, args, kw, node):
     I.raise_('ValueError', node)
 
 
+def b_slist_append(I, slf, args, kw, node):
+    """list.append on a list that a loop specification turned symbolic: in-place update of the shared value"""
+    lt = TY.list_theory(TY.smt_sort(slf.extra['elem']))
+    from .contract import coerce_arg
+    v = args[0]
+    slf.t = lt.lapp(slf.t, v.t)
+    return NONE
+
+
 def b_slist_index(I, slf, args, kw, node):
     return I.registry.slist_index(I, slf, args[0], node)
 
@@ -857,7 +866,7 @@ BUILTINS = {
     'all': b_all, 'any': b_any, 'sum': b_sum, 'abs': b_abs, 'float.is_integer': b_is_integer,
     'bytes.decode': b_decode, 'bytes.index': b_bytes_index, 'bytes.hex': b_hex, 'str.lower': b_lower,
     'str.startswith': b_startswith, 'str.endswith': b_endswith, 'list.append': b_list_append,
-    'list.index': b_list_index, 'slist.index': b_slist_index, 'dict.get': b_dict_get, 'dict.items': b_dict_items,
+    'list.index': b_list_index, 'slist.index': b_slist_index, 'slist.append': b_slist_append, 'dict.get': b_dict_get, 'dict.items': b_dict_items,
     'dict.keys': b_dict_keys, 'dict.values': b_dict_values, 'dict': b_dict,
 }
 
